@@ -20,7 +20,12 @@ SAN_ASAN, SAN_UBSAN = 99, 98
 
 def tool_env(b):
     e = b.env()
-    e["ASAN_OPTIONS"] = f"detect_leaks=0:abort_on_error=0:exitcode={SAN_ASAN}:detect_stack_use_after_return=0:allocator_may_return_null=1"
+    # handle_*=2: the tools install their own SIGSEGV/SIGBUS/SIGABRT handler (ERRORinitialize) which, once an ERROR has been
+    # reported, longjmps out of the resolver and ends the run with status 1 (express.c: ERRORsafe/ERRORunsafe) — a crash
+    # after the first diagnostic would look like an ordinary rejection.  With 2 ASan keeps its handlers, the program's
+    # signal() calls have no effect, and a wild access or an abort() is reported with a stack.
+    e["ASAN_OPTIONS"] = (f"detect_leaks=0:abort_on_error=0:exitcode={SAN_ASAN}:detect_stack_use_after_return=0:allocator_may_return_null=1"
+                         ":handle_segv=2:handle_sigbus=2:handle_abort=2:handle_sigill=2:handle_sigfpe=2")
     e["UBSAN_OPTIONS"] = f"print_stacktrace=1:halt_on_error=1:exitcode={SAN_UBSAN}"
     e["LC_ALL"] = "C"
     return e
